@@ -1,67 +1,76 @@
 -------------------------- MODULE Trace_Cardinality --------------------------
 (* code -> spec: validates collections recorded from real MeterProviders        *)
 (* against CardModel.  Lines: Setup{sc,cfg} starts a scenario (fresh provider   *)
-(* built from cfg); Cycle{sc,ops,obs} = the measurements of one collection      *)
-(* cycle in arrival order and the projection of what the reader collected.      *)
+(* with cfg.readers readers built from cfg); Cycle{sc,r,ops,obs} = the          *)
+(* measurements made since the previous line, in arrival order, followed by a   *)
+(* collection of reader r and the projection of what that reader collected      *)
+(* (collections of different readers interleave in trace order).                *)
 (* Two independent judgements per cycle: (1) obs = Report of the operational    *)
-(* model; (2) the clauses of the statement evaluated directly on obs (bound,    *)
-(* single exact overflow set, conservation against running totals of the ops).  *)
+(* model for reader r; (2) the clauses of the statement evaluated directly on   *)
+(* obs (bound, single exact overflow set, conservation against running totals   *)
+(* of what reader r's aggregators were fed).                                    *)
+(* A Setup whose configuration lies outside the modelled domain (InDomain) is   *)
+(* reported as SKIP and its cycles are consumed without judgement.              *)
 EXTENDS CardModel, TraceKit, FiniteSetsExt
 
 VARIABLES l, cfg, tab, fm, ss, fed, skip
 vars == <<l, cfg, tab, fm, ss, fed, skip>>
 
-NoCfg == [limit |-> 0, temp |-> "delta", insts |-> <<>>, views |-> <<>>]
+NoCfg == [limit |-> 0, readers |-> <<>>, insts |-> <<>>, views |-> <<>>]
 Init == l = 1 /\ cfg = NoCfg /\ tab = <<>> /\ fm = <<>> /\ ss = <<>> /\ fed = <<>> /\ skip = FALSE
 
 TSetup == /\ l <= Len(Trace) /\ Trace[l].ev = "Setup"
           /\ cfg' = Trace[l].cfg
           /\ skip' = ~InDomain(cfg')
-          /\ tab' = IF skip' THEN <<>> ELSE Table(cfg')
-          /\ fm' = IF skip' THEN <<>> ELSE FeedMap(cfg', tab')
-          /\ ss' = [t \in 1..Len(tab') |-> NewAgg]
-          /\ fed' = [t \in 1..Len(tab') |-> [n |-> 0, s |-> 0]]
+          /\ tab' = IF skip' THEN <<>> ELSE [r \in 1..Len(cfg'.readers) |-> Table(cfg', cfg'.readers[r])]
+          /\ fm' = IF skip' THEN <<>> ELSE [r \in 1..Len(cfg'.readers) |-> FeedMap(cfg', cfg'.readers[r], tab'[r])]
+          /\ ss' = [r \in 1..Len(tab') |-> [t \in 1..Len(tab'[r]) |-> NewAgg]]
+          /\ fed' = [r \in 1..Len(tab') |-> [t \in 1..Len(tab'[r]) |-> [n |-> 0, s |-> 0]]]
           /\ (skip' => PrintT("SKIP " \o ToJson([line |-> l, sc |-> Trace[l].sc])))
           /\ l' = l + 1
 
 (* observation as sets; a repeated metric or a repeated point makes it differ from any model value *)
-ObsMetric(g) == [name |-> g.name, desc |-> g.desc, unit |-> g.unit, sn |-> g.sn, sv |-> g.sv, su |-> g.su, num |-> g.num, agg |-> g.agg, temp |-> g.temp, mono |-> g.mono, pts |-> Rng(g.pts)]
+ObsMetric(g) == [name |-> g.name, desc |-> g.desc, unit |-> g.unit, sn |-> g.sn, sv |-> g.sv, su |-> g.su, num |-> g.num,
+                 agg |-> g.agg, temp |-> g.temp, mono |-> g.mono, pts |-> Rng(g.pts)]
 ObsSet(obs) == {ObsMetric(obs[j]) : j \in 1..Len(obs)}
 NoDup(obs) == /\ Cardinality(ObsSet(obs)) = Len(obs)
               /\ \A j \in 1..Len(obs) : Cardinality(Rng(obs[j].pts)) = Len(obs[j].pts)
 
-(* running totals of what each aggregator was fed since its last reset *)
-AddFed(f, ops) == FoldLeft(LAMBDA acc, o : [t \in 1..Len(tab) |->
-                              IF t \in fm[o.i] THEN [n |-> acc[t].n + 1, s |-> acc[t].s + o.v] ELSE acc[t]], f, ops)
-ResetFed(f) == [t \in 1..Len(tab) |->
-                  IF Mode(tab[t].agg, tab[t].kind) \in {"psum", "plast"} \/ cfg.temp = "delta" THEN [n |-> 0, s |-> 0] ELSE f[t]]
+(* running totals of what each aggregator of reader r was fed since its last reset *)
+AddFed(r, f, ops) == FoldLeft(LAMBDA acc, o : [t \in 1..Len(tab[r]) |->
+                                 IF t \in fm[r][o.i] THEN [n |-> acc[t].n + 1, s |-> acc[t].s + o.v] ELSE acc[t]], f, ops)
+ResetFed(r, f) == [t \in 1..Len(tab[r]) |->
+                     IF Mode(tab[r][t].agg, tab[r][t].kind) \in {"psum", "plast"} \/ cfg.readers[r].temp = "delta"
+                     THEN [n |-> 0, s |-> 0] ELSE f[t]]
 
 (* statement clauses evaluated on the real observation alone *)
 BoundObs(obs) == \A j \in 1..Len(obs) :
    /\ (cfg.limit > 0 => Len(obs[j].pts) <= cfg.limit)
    /\ Cardinality({x \in 1..Len(obs[j].pts) : obs[j].pts[x].ovf}) <= (IF cfg.limit > 0 THEN 1 ELSE 0)
-ConservedObs(obs, f) == \A t \in 1..Len(tab) :
-   LET m == Mode(tab[t].agg, tab[t].kind)
-       G == {j \in 1..Len(obs) : MKey(obs[j]) = RKey(tab[t])}
+ConservedObs(r, obs, f) == \A t \in 1..Len(tab[r]) :
+   LET st == tab[r][t]
+       m == Mode(st.agg, st.kind)
+       G == {j \in 1..Len(obs) : MKey(obs[j]) = RKey(st)}
        tot(fld) == MapThenSumSet(LAMBDA j : MapThenSumSet(LAMBDA x : obs[j].pts[x][fld], 1..Len(obs[j].pts)), G)
    IN /\ (m = "drop" => G = {})
       /\ (m # "drop" /\ f[t].n = 0 => G = {})
       /\ (m # "drop" /\ f[t].n > 0 => Cardinality(G) = 1)
       /\ (m = "hist" => tot("n") = f[t].n)
-      /\ ((m = "sum" \/ (m = "psum" /\ cfg.temp = "cumulative") \/ (m = "hist" /\ HasSum(tab[t].kind))) => tot("s") = f[t].s)
+      /\ ((m = "sum" \/ (m = "psum" /\ cfg.readers[r].temp = "cumulative") \/ (m = "hist" /\ HasSum(st.kind))) => tot("s") = f[t].s)
 
 TCycle == /\ l <= Len(Trace) /\ Trace[l].ev = "Cycle" /\ ~skip
           /\ LET ops == Trace[l].ops
                  obs == Trace[l].obs
-                 m == ApplyAll(cfg, tab, fm, ss, ops)
-                 want == Report(cfg, tab, m)
-                 f == AddFed(fed, ops)
-             IN /\ ss' = Reset(cfg, tab, m)
-                /\ fed' = ResetFed(f)
+                 r == Trace[l].r
+                 m == [q \in 1..Len(tab) |-> ApplyAll(cfg.limit, tab[q], fm[q], ss[q], ops)]
+                 want == Report(cfg.readers[r].temp, tab[r], m[r])
+                 f == [q \in 1..Len(tab) |-> AddFed(q, fed[q], ops)]
+             IN /\ ss' = [m EXCEPT ![r] = Reset(cfg.readers[r].temp, tab[r], m[r])]
+                /\ fed' = [f EXCEPT ![r] = ResetFed(r, f[r])]
                 /\ (~(NoDup(obs) /\ ObsSet(obs) = want) =>
-                      Viol([line |-> l, sc |-> Trace[l].sc, kind |-> "state", want |-> want, got |-> obs]))
-                /\ (~BoundObs(obs) => Viol([line |-> l, sc |-> Trace[l].sc, kind |-> "bound", got |-> obs]))
-                /\ (~ConservedObs(obs, f) => Viol([line |-> l, sc |-> Trace[l].sc, kind |-> "conserve", fed |-> f, got |-> obs]))
+                      Viol([line |-> l, sc |-> Trace[l].sc, r |-> r, kind |-> "state", want |-> want, got |-> obs]))
+                /\ (~BoundObs(obs) => Viol([line |-> l, sc |-> Trace[l].sc, r |-> r, kind |-> "bound", got |-> obs]))
+                /\ (~ConservedObs(r, obs, f[r]) => Viol([line |-> l, sc |-> Trace[l].sc, r |-> r, kind |-> "conserve", fed |-> f[r], got |-> obs]))
           /\ l' = l + 1 /\ UNCHANGED <<cfg, tab, fm, skip>>
 
 TSkipped == /\ l <= Len(Trace) /\ Trace[l].ev = "Cycle" /\ skip
@@ -73,7 +82,7 @@ Next == TSetup \/ TCycle \/ TSkipped \/ TDone
 Spec == Init /\ [][Next]_vars
 
 (* the model-side statement holds at every step of every real trace *)
-Inv == \A t \in 1..Len(tab) : Mode(tab[t].agg, tab[t].kind) # "drop" =>
-          /\ (cfg.limit > 0 => Cardinality(ss[t].cells) <= cfg.limit)
-          /\ Cardinality({x \in ss[t].cells : x.ovf}) <= 1
+Inv == \A r \in 1..Len(tab) : \A t \in 1..Len(tab[r]) : Mode(tab[r][t].agg, tab[r][t].kind) # "drop" =>
+          /\ (cfg.limit > 0 => Cardinality(ss[r][t].cells) <= cfg.limit)
+          /\ Cardinality({x \in ss[r][t].cells : x.ovf}) <= 1
 =============================================================================
